@@ -429,13 +429,19 @@ def _coeff(p: Poly, sym, power):
 def _r3(ctx):
     prog = ctx.prog
     ctx.rule("R-C12-3", floor=6, what="per-segment shift lies on the iso-damage line; R=-inf formula is its limit; one R<->mean relation")
-    f = prog.functions.get(MS + ":_SegmentTransformer.transform_cycles_in_interval.transformed_amplitude")
+    # the shift formula: the if/else on `R_goal == -np.inf` whose two arms define the same local - in the method itself or in
+    # one of its nested helper functions (role, not name)
+    outer = prog.func(MS + ":_SegmentTransformer.transform_cycles_in_interval")
+    cands = [outer] + [fi_ for k_, fi_ in prog.functions.items() if fi_.parent is outer]
+    f, br = None, None
+    for fi_ in cands:
+        for s_ in fi_.node.body:
+            if isinstance(s_, ast.If) and norm_text(s_.test) in ("R_goal == -np.inf", "-np.inf == R_goal") and len(s_.body) == 1 and \
+                    len(s_.orelse) == 1 and isinstance(s_.body[0], ast.Assign) and isinstance(s_.orelse[0], ast.Assign) and \
+                    norm_text(s_.body[0].targets[0]) == norm_text(s_.orelse[0].targets[0]):
+                f, br = fi_, s_
     if f is None:
         raise AnalysisError("transformed_amplitude helper not found")
-    branch = [s for s in f.node.body if isinstance(s, ast.If)]
-    if len(branch) != 1:
-        raise AnalysisError("transformed_amplitude: R_goal branch not found")
-    br = branch[0]
     special = br.body[0].value
     general = br.orelse[0].value
     t = norm_text(br.test)
